@@ -583,12 +583,7 @@ func (c *Ctx) perIteration(w *walkInfo) {
 			continue // constant for the whole pass
 		}
 		// some store must dominate the Inspect call within the same function instance (same iteration)
-		dom := false
-		for _, st := range inScope {
-			if st.Parent() == inspectFn && dominates(st.Block(), w.Call.Block()) && (loop == nil || loop[st.Block()]) {
-				dom = true
-			}
-		}
+		dom := storesCoverWalk(inScope, w.Call, loop)
 		c.check(dom, "WALKSTATE/PER-ITERATION", name+"#"+fname, P.Pos(w.Call.Pos()),
 			"field is assigned on every path of each iteration before the walk",
 			fmt.Sprintf("field %s is written inside the file/declaration loop and read during the walk, but not re-assigned on every path before each walk: its value leaks from the previous declaration/file", fname))
@@ -674,12 +669,7 @@ func (c *Ctx) perIterationCells(w *walkInfo) {
 		if len(inScope) == 0 {
 			continue // not re-assigned while iterating: constant for all walks it is visible to
 		}
-		dom := false
-		for _, st := range inScope {
-			if st.Parent() == inspectFn && dominates(st.Block(), w.Call.Block()) && (loop == nil || loop[st.Block()]) {
-				dom = true
-			}
-		}
+		dom := storesCoverWalk(inScope, w.Call, loop)
 		vname := cell.Comment
 		c.check(dom, "WALKSTATE/PER-ITERATION", name+"#var "+vname, P.Pos(w.Call.Pos()),
 			"variable is assigned on every path of each iteration before the walk",
@@ -965,4 +955,57 @@ func indexLoopPartial(fs *ast.ForStmt, list ast.Expr) string {
 		return true
 	})
 	return why
+}
+
+// storesCoverWalk: every path of one iteration - from the head of the loop around the walk (from the entry of the
+// function when the walk is not in a loop: a yield function runs once per element) to the walk call - executes
+// one of the stores before the call.
+func storesCoverWalk(stores []*ssa.Store, call ssa.Instruction, loop map[*ssa.BasicBlock]bool) bool {
+	fn := call.Parent()
+	target := call.Block()
+	start := fn.Blocks[0]
+	if loop != nil {
+		for h := range loop {
+			head := true
+			for x := range loop {
+				if !dominates(h, x) {
+					head = false
+				}
+			}
+			if head {
+				start = h
+			}
+		}
+	}
+	assigns := func(b *ssa.BasicBlock) bool {
+		for _, st := range stores {
+			if st.Parent() != fn || st.Block() != b {
+				continue
+			}
+			if b != target || instrIdx(st) < instrIdx(call) {
+				return true
+			}
+		}
+		return false
+	}
+	seen := map[*ssa.BasicBlock]bool{start: true}
+	work := []*ssa.BasicBlock{start}
+	for len(work) > 0 {
+		x := work[len(work)-1]
+		work = work[:len(work)-1]
+		if assigns(x) {
+			continue
+		}
+		if x == target {
+			return false
+		}
+		for _, s := range x.Succs {
+			if seen[s] || (loop != nil && !loop[s]) {
+				continue
+			}
+			seen[s] = true
+			work = append(work, s)
+		}
+	}
+	return true
 }
